@@ -359,7 +359,7 @@ def rotation_matrix_from_to(from_vec, to_vec):
             angle = np.pi
         else:
             angle = (np.sign(np.dot(from_rot, to_vec)) *
-                     np.arccos(np.dot(from_vec, to_vec)))
+                     np.arccos(np.clip(np.dot(from_vec, to_vec), -1, 1)))
         return np.array([[np.cos(angle), -np.sin(angle)],
                          [np.sin(angle), np.cos(angle)]])
 
@@ -378,7 +378,7 @@ def rotation_matrix_from_to(from_vec, to_vec):
             normal /= normal_norm
             binormal = np.cross(normal, from_vec)
             angle = (np.sign(np.dot(binormal, to_vec)) *
-                     np.arccos(np.dot(from_vec, to_vec)))
+                     np.arccos(np.clip(np.dot(from_vec, to_vec), -1, 1)))
             return axis_rotation_matrix(normal, angle)
 
     else:
